@@ -7,7 +7,7 @@ from vf.tape import Fail, notrace
 
 PROPERTY = 'C05'
 BIG = 10 ** 20
-WHO = ['fn', 'catchall-event', 'catchall-namespace', 'cls', 'cls-plain-method', 'cls-star', 'nobody']
+WHO = ['fn', 'catchall-event', 'catchall-namespace', 'cls', 'cls-plain-method', 'cls-star', 'nobody', 'cls-without-method']
 SLOTS = [('e0', '/'), ('e0', '/a'), ('e1', '/'), ('e1', '/a')]     # (e1, /a) is NOT connected
 
 
@@ -67,6 +67,10 @@ def h(t, part):
                     def on_ev(self, *a, m=m):
                         return m(*a)
                 w.s.register_namespace(type('N', (base,), {'on_ev': on_ev})(ns))
+            elif who == 'cls-without-method':
+                # a class-based namespace is responsible for the namespace but has no method for this event: nothing is
+                # invoked, the event is acknowledged without arguments
+                w.s.register_namespace(type('N', (base,), {'on_other': (lambda self, *a: None)})(ns))
         if who == 'catchall-namespace':
             w.s.on('ev', mk('catchall-namespace', coro), namespace='*')
         if who == 'cls-star':
@@ -130,6 +134,8 @@ def h(t, part):
             # second event: fixed shape, any sender (order and per-client isolation)
             idk, eid, x = 2, t.int(1, 2), 5
             args, ret = [x], 'second'
+        if who == 'cls-without-method':
+            ret = None
         rets.append(ret)
         ncalls = len(calls)
         other = 'e1' if e == 'e0' else 'e0'
@@ -164,7 +170,7 @@ def h(t, part):
         exp = {'fn': [('fn', (sid,) + targs)], 'catchall-event': [('catchall-event', ('ev', sid) + targs)],
                'catchall-namespace': [('catchall-namespace', (ns, sid) + targs)], 'cls': [('cls', (sid,) + targs)],
                'cls-plain-method': [('cls', (sid,) + targs)], 'cls-star': [('cls-star', (ns, sid) + targs)],
-               'nobody': []}[who]
+               'nobody': [], 'cls-without-method': []}[who]
         if len(new) != len(exp):
             return Fail('event:invocations:%s:%d' % (who, len(new)), 'event on %s %s: calls %r' % (e, ns, new))
         if exp and not (new[0][0] == exp[0][0] and new[0][1] == exp[0][1]):
